@@ -164,7 +164,7 @@ def apply_op(ax, op):
         elif k == 'dv':
             ax = operator.itruediv(ax, op[1])
         elif k == 'sl':
-            ax = ax[slice_of(op)]
+            return ax[slice_of(op)], 'ok', ax      # the parent stays observed: the slice must not write through to it
         elif k == 'cp':
             return ax.copy(), 'ok', ax
         elif k == 'cv':
@@ -433,6 +433,7 @@ CORPUS = [
     (('s', 3000 * S, 2000 * S, 1), [('ar', 'a64', [5], None)]),
     (('s', 3000 * S, 2000 * S, 4), [('sr', 'l', [1], None)]),
     (('s', 3000 * S, 2000 * S, 4), [('sl', None, None, -1)]),
+    (('s', 0, 2000 * S, 5), [('sl', 1, 3, 1), ('as', 'i', 5)]),
     (('s', 3000 * S, 2000 * S, 4), [('mu', -1), ('as', 'i', 2)]),
 ]
 
@@ -513,11 +514,11 @@ def judge(init, ops, steps=None):
                 sym = ['changed-on-reject'] + sym
         # originals of copies must stay as they were when the copy was taken (judged first: an
         # operation on a copy that reaches the original is its own defect)
-        if op[0] in ('cp', 'cv') and oc == 'ok' and len(axes) > 1:
-            kept_obs.insert(0, prev_axes[0] if prev_axes else None)
-        for j, (now, then) in enumerate(zip(axes[1:], kept_obs)):
+        if op[0] in ('cp', 'cv', 'sl') and oc == 'ok' and len(axes) > 1:
+            kept_obs.insert(0, (prev_axes[0] if prev_axes else None, 'slice-parent' if op[0] == 'sl' else 'original'))
+        for j, (now, (then, kind)) in enumerate(zip(axes[1:], kept_obs)):
             if then is not None and now != then:
-                sym.insert(0, 'original-changed')
+                sym.insert(0, kind + '-changed')
                 break
         if sym == ['lookup'] and a[1] < 0:
             # every attribute describes the (decreasing) samples, only index_at does not cope
@@ -549,9 +550,10 @@ def sym_key(sym, name=''):
     named when it is the sole symptom)"""
     core = [x for x in sym if x != 'lookup'] or list(sym)
     parts = []
-    if 'original-changed' in core:
-        parts.append('original-changed')
-        core = [x for x in core if x != 'original-changed']
+    for oc_ in ('original-changed', 'slice-parent-changed'):
+        if oc_ in core:
+            parts.append(oc_)
+            core = [x for x in core if x != oc_]
     if core:
         for label, fam in FAMILY.get(name, []):
             if set(core) <= fam:
